@@ -420,7 +420,7 @@ theorem interveneWith_name (o : Var) (iv : Iv) (k : Var) (h : interveneWith o iv
     · cases h; rfl
   · cases h; rfl
 
-theorem mapM_ok_mem {α β : Type} (f : α → Except Err β) : ∀ (l : List α) (r : List β), l.mapM f = .ok r →
+theorem mapM_ok_mem_idc {α β : Type} (f : α → Except Err β) : ∀ (l : List α) (r : List β), l.mapM f = .ok r →
     ∀ y ∈ r, ∃ x ∈ l, f x = .ok y
   | [], r, h, y, hy => by
     simp only [List.mapM_nil, pure, Except.pure, Except.ok.injEq] at h
@@ -442,7 +442,7 @@ theorem mapM_ok_mem {α β : Type} (f : α → Except Err β) : ∀ (l : List α
         subst h
         rcases List.mem_cons.1 hy with rfl | hy
         · exact ⟨a, by simp, hf⟩
-        · obtain ⟨x, hx, hfx⟩ := mapM_ok_mem f l bs hl y hy
+        · obtain ⟨x, hx, hfx⟩ := mapM_ok_mem_idc f l bs hl y hy
           exact ⟨x, by simp [hx], hfx⟩
 
 /-- the exchange renames outcomes only in their subscripts -/
@@ -457,7 +457,7 @@ theorem exchangeOutcomes_names (cf : MG Var) (outcomes : Event) (c : Var) (val :
     subst h
     intro k hk
     obtain ⟨q, hq, rfl⟩ := (mem_keys_ofList ps k).1 hk
-    obtain ⟨p, hp, hfp⟩ := mapM_ok_mem _ _ _ hps q hq
+    obtain ⟨p, hp, hfp⟩ := mapM_ok_mem_idc _ _ _ hps q hq
     refine ⟨p.1, (mem_keys_iff' _ _).2 ⟨p, hp, rfl⟩, ?_⟩
     cases ha : cf.ancestorsInclusive [p.1] with
     | error e => rw [ha] at hfp; cases hfp
